@@ -2,7 +2,6 @@ package guards
 
 import (
 	"fmt"
-	"go/constant"
 	"go/token"
 	"go/types"
 	"sort"
@@ -18,10 +17,9 @@ import (
 type Engine struct {
 	P        *load.Program
 	A        *effects.Analysis
-	Guard    *ssa.Function // checkInitialized
+	G        *load.GuardSem
 	cdg      map[*ssa.Function]*CDG
 	gmemo    map[gkey]int // 0 unknown, 1 computing, 2 true, 3 false
-	cmemo    map[gkey]int
 	Problems []string
 }
 
@@ -31,12 +29,7 @@ type gkey struct {
 }
 
 func New(a *effects.Analysis) *Engine {
-	e := &Engine{P: a.P, A: a, cdg: map[*ssa.Function]*CDG{}, gmemo: map[gkey]int{}, cmemo: map[gkey]int{}}
-	e.Guard = a.P.ByName["checkInitialized"]
-	if e.Guard == nil {
-		e.Problems = append(e.Problems, "ANCHOR checkInitialized not found in package edwards25519")
-	}
-	return e
+	return &Engine{P: a.P, A: a, G: a.P.Guards(), cdg: map[*ssa.Function]*CDG{}, gmemo: map[gkey]int{}}
 }
 
 func (e *Engine) CDG(f *ssa.Function) *CDG {
@@ -50,14 +43,7 @@ func (e *Engine) CDG(f *ssa.Function) *CDG {
 
 func (e *Engine) cfg() string { return e.P.Config.Name }
 
-func isPointPtr(t types.Type) bool {
-	p, ok := t.Underlying().(*types.Pointer)
-	if !ok {
-		return false
-	}
-	n, ok := p.Elem().(*types.Named)
-	return ok && n.Obj().Name() == "Point" && n.Obj().Pkg() != nil && n.Obj().Pkg().Path() == load.RootPath
-}
+func isPointPtr(t types.Type) bool { return load.IsPointPtr(t) }
 
 // pointRoots lists the Point-typed positions of f: *Point params (receiver
 // included) and the elements of []*Point params.
@@ -73,20 +59,14 @@ func pointRoots(f *ssa.Function) []effects.Root {
 	return out
 }
 
-func dominates(x, y ssa.Instruction) bool {
-	bx, by := x.Block(), y.Block()
-	if bx == by {
-		for _, in := range bx.Instrs {
-			if in == x {
-				return x != y
-			}
-			if in == y {
-				return false
-			}
-		}
-		return false
-	}
-	return bx.Dominates(by)
+func subjOf(r effects.Root) load.GSubject {
+	return load.GSubject{Param: r.Index, Elem: r.Kind == effects.KElem}
+}
+
+// zrun: what f can still do when the Point at position r has the zero pattern
+// (x and y both the zero Element) — the guard semantics of load/guardsem.go.
+func (e *Engine) zrun(f *ssa.Function, r effects.Root) *load.GRun {
+	return e.G.Run(f, subjOf(r), load.GZero)
 }
 
 // calleeRootsFor returns the callee roots that map to caller root r at call c.
@@ -102,73 +82,43 @@ func (e *Engine) calleeRootsFor(fi *effects.FuncInfo, c *ssa.Call, h *ssa.Functi
 	return out
 }
 
-// guardsOf returns the instructions in f that act as guards for root r:
-// checkInitialized calls covering r and calls of functions that always check
-// the corresponding position.
-func (e *Engine) guardsOf(f *ssa.Function, r effects.Root) []ssa.Instruction {
-	fi := e.A.Info[f]
-	var out []ssa.Instruction
-	for _, b := range f.Blocks {
-		for _, in := range b.Instrs {
-			c, ok := in.(*ssa.Call)
-			if !ok {
-				continue
-			}
-			h := c.Common().StaticCallee()
-			if h == nil || !e.P.InRepo(h) {
-				continue
-			}
-			if h == e.Guard {
-				if e.guardCovers(fi, c, r) {
-					out = append(out, in)
-				}
-				continue
-			}
-			for _, hr := range e.calleeRootsFor(fi, c, h, r) {
-				if e.Checks(h, hr) {
-					out = append(out, in)
-					break
-				}
-			}
-		}
-	}
-	return out
+// Checks: f cannot return normally when the Point at r has the zero pattern
+// (the guard is applied on every path to a normal return).
+func (e *Engine) Checks(f *ssa.Function, r effects.Root) bool {
+	return !e.zrun(f, r).MayReturn
 }
 
-// guardCovers: does this checkInitialized call definitely inspect position r?
-// Either the whole parameter slice is passed (points...), covering every
-// element, or a varargs array whose slots each hold exactly one known pointer.
-func (e *Engine) guardCovers(fi *effects.FuncInfo, c *ssa.Call, r effects.Root) bool {
-	arg := c.Common().Args[0]
-	if p, ok := arg.(*ssa.Parameter); ok {
-		for i, q := range fi.Fn.Params {
-			if q == p {
-				return r == effects.Root{Kind: effects.KElem, Index: i}
+// inspection: the instruction only compares the x or y coordinate of a Point
+// with the zero Element (the guard's own look at the point).
+func (e *Engine) inspection(run *load.GRun, in ssa.Instruction) bool {
+	switch x := in.(type) {
+	case *ssa.UnOp:
+		if x.Op != token.MUL {
+			return false
+		}
+		fa, ok := x.X.(*ssa.FieldAddr)
+		if !ok || !isPointPtr(fa.X.Type()) {
+			return false
+		}
+		if n := load.FieldName(fa.X.Type().Underlying().(*types.Pointer).Elem(), fa.Field); n != "x" && n != "y" {
+			return false
+		}
+		for _, ref := range *x.Referrers() {
+			switch u := ref.(type) {
+			case *ssa.DebugRef:
+			case *ssa.BinOp:
+				if u.Op != token.EQL && u.Op != token.NEQ {
+					return false
+				}
+			default:
+				return false
 			}
 		}
-		return false
-	}
-	sl, ok := arg.(*ssa.Slice)
-	if !ok || sl.Low != nil || sl.High != nil {
-		return false
-	}
-	al, ok := sl.X.(*ssa.Alloc)
-	if !ok || al.Comment != "varargs" {
-		return false
-	}
-	// every store into the varargs array stores one definite pointer
-	for _, ref := range *al.Referrers() {
-		ia, ok := ref.(*ssa.IndexAddr)
-		if !ok {
-			continue
-		}
-		for _, ref2 := range *ia.Referrers() {
-			st, ok := ref2.(*ssa.Store)
-			if !ok || st.Addr != ssa.Value(ia) {
-				continue
-			}
-			pvs := fi.PtsOf(st.Val)
-			if len(pvs) == 1 && pvs[0].Loc.Root == r && pvs[0].Loc.Path == "" && r.Kind == effects.KParam {
+		return true
+	case *ssa.Call:
+		// p.x.Equal(&zero): decided by the guard semantics as an atom
+		if h := x.Common().StaticCallee(); h != nil && load.ShortName(h) == "field.(*Element).Equal" {
+			if _, det := run.Val(x); det {
 				return true
 			}
 		}
@@ -176,46 +126,16 @@ func (e *Engine) guardCovers(fi *effects.FuncInfo, c *ssa.Call, r effects.Root) 
 	return false
 }
 
-// Checks: f applies the guard to r on every path to a normal return.
-func (e *Engine) Checks(f *ssa.Function, r effects.Root) bool {
-	k := gkey{f, r}
-	switch e.cmemo[k] {
-	case 1, 3:
-		return false
-	case 2:
-		return true
-	}
-	e.cmemo[k] = 1
-	gs := e.guardsOf(f, r)
-	ok := len(gs) > 0
-	for _, rs := range e.A.Info[f].Sum.Returns {
-		d := false
-		for _, g := range gs {
-			if rs.Instr != nil && dominates(g, rs.Instr) {
-				d = true
-			}
-		}
-		if !d {
-			ok = false
-		}
-	}
-	if ok {
-		e.cmemo[k] = 2
-	} else {
-		e.cmemo[k] = 3
-	}
-	return ok
-}
-
 type unguarded struct {
 	ev  effects.Event
 	why string
 }
 
-// Unguarded returns the initial-value reads of r in f that no guard dominates.
+// Unguarded returns the initial-value reads of r in f that can still happen
+// when the Point at r has the zero pattern.
 func (e *Engine) Unguarded(f *ssa.Function, r effects.Root) []unguarded {
 	fi := e.A.Info[f]
-	gs := e.guardsOf(f, r)
+	run := e.zrun(f, r)
 	var out []unguarded
 	seen := map[ssa.Instruction]bool{}
 	for _, b := range f.Blocks {
@@ -228,16 +148,11 @@ func (e *Engine) Unguarded(f *ssa.Function, r effects.Root) []unguarded {
 				if !fi.Sum.ReadsInitial.Has(ev.Loc) {
 					continue
 				}
-				ok := false
-				for _, g := range gs {
-					if dominates(g, in) {
-						ok = true
-					}
-				}
+				ok := !run.Reachable(in) || e.inspection(run, in)
 				if !ok && ev.Via != nil {
 					if c, isCall := in.(*ssa.Call); isCall {
 						h := c.Common().StaticCallee()
-						if h != nil && h != e.Guard && e.P.InRepo(h) {
+						if h != nil && e.P.InRepo(h) {
 							hrs := e.calleeRootsFor(fi, c, h, r)
 							all := len(hrs) > 0
 							for _, hr := range hrs {
@@ -246,9 +161,6 @@ func (e *Engine) Unguarded(f *ssa.Function, r effects.Root) []unguarded {
 								}
 							}
 							ok = all
-						}
-						if h == e.Guard {
-							ok = true // the guard's own inspection of x and y
 						}
 					}
 				}
@@ -283,7 +195,7 @@ func (e *Engine) Guarded(f *ssa.Function, r effects.Root) bool {
 }
 
 // readsBeyondGuard: is the incoming value of r read by anything other than
-// checkInitialized's own inspection?
+// the guard's own inspection?
 func (e *Engine) readsBeyondGuard(f *ssa.Function, r effects.Root, depth int) bool {
 	fi := e.A.Info[f]
 	if !fi.Sum.ReadsInitial.HasRoot(r) {
@@ -292,10 +204,14 @@ func (e *Engine) readsBeyondGuard(f *ssa.Function, r effects.Root, depth int) bo
 	if depth > 10 {
 		return true
 	}
+	run := e.zrun(f, r)
 	for _, b := range f.Blocks {
 		for _, in := range b.Instrs {
 			for _, ev := range fi.Events[in] {
 				if ev.Op != effects.OpReadInit || ev.Loc.Root != r || !fi.Sum.ReadsInitial.Has(ev.Loc) {
+					continue
+				}
+				if e.inspection(run, in) {
 					continue
 				}
 				if ev.Via == nil {
@@ -306,11 +222,11 @@ func (e *Engine) readsBeyondGuard(f *ssa.Function, r effects.Root, depth int) bo
 					return true
 				}
 				h := c.Common().StaticCallee()
-				if h == e.Guard {
-					continue
-				}
 				if h == nil || !e.P.InRepo(h) {
 					return true
+				}
+				if e.G.InGuardFamily(h) {
+					continue
 				}
 				hrs := e.calleeRootsFor(fi, c, h, r)
 				if len(hrs) == 0 {
@@ -335,13 +251,31 @@ func rootName(f *ssa.Function, r effects.Root) string {
 	return n
 }
 
+// distinguishes: does f behave differently (panic) for a Point at r with the zero pattern?
+func (e *Engine) distinguishes(f *ssa.Function, r effects.Root) (ssa.Instruction, bool) {
+	z := e.zrun(f, r)
+	n := e.G.Run(f, subjOf(r), load.GAssign{})
+	if z.MayReturn == n.MayReturn && len(z.Reach) == len(n.Reach) && len(z.Panics) == len(n.Panics) {
+		return nil, false
+	}
+	for _, p := range z.Panics {
+		found := false
+		for _, q := range n.Panics {
+			if p == q {
+				found = true
+			}
+		}
+		if !found {
+			return p, true
+		}
+	}
+	return nil, true
+}
+
 // GInit: every Point-typed input position of every API root is guarded;
 // pure receivers are not.
 func (e *Engine) GInit() []report.Obligation {
 	var out []report.Obligation
-	if e.Guard == nil {
-		return out
-	}
 	for _, f := range e.P.APIRoots() {
 		fi := e.A.Info[f]
 		for _, r := range pointRoots(f) {
@@ -349,24 +283,19 @@ func (e *Engine) GInit() []report.Obligation {
 			isInput := e.readsBeyondGuard(f, r, 0)
 			if isInput {
 				o := report.Obligation{Rule: "G-INIT", Key: "G-INIT/" + load.ShortName(f) + "/" + name, Config: e.cfg(), Pos: e.P.Rel(f.Pos()), OK: true,
-					Detail: "every read of this Point input is dominated by checkInitialized on it"}
+					Detail: "with x and y of this Point input both the zero Element (never set), no read of it and no normal return is reachable: the initialisation guard panics first"}
 				if load.ShortName(f) == "(*Point).Set" {
 					o.Detail = "plain copy: exempt by the property (\"plain copying (Set) is exempt\")"
 					o.Exception = "Set is exempt by the property statement"
 					out = append(out, o)
 					continue
 				}
-				if !e.Checks(f, r) {
+				run := e.zrun(f, r)
+				if run.MayReturn {
 					o.OK = false
-					o.Detail = "some path reaches a normal return without checkInitialized having been applied to " + name + ": a zero-value Point is accepted as input on that path"
+					o.Detail = "some path reaches a normal return without the initialisation guard having been applied to " + name + ": a zero-value Point is accepted as input on that path"
 					for _, rs := range fi.Sum.Returns {
-						d := false
-						for _, g := range e.guardsOf(f, r) {
-							if rs.Instr != nil && dominates(g, rs.Instr) {
-								d = true
-							}
-						}
-						if !d && rs.Instr != nil {
+						if rs.Instr != nil && run.Reachable(rs.Instr) {
 							o.Pos = e.P.Rel(rs.Instr.Pos())
 						}
 					}
@@ -380,16 +309,18 @@ func (e *Engine) GInit() []report.Obligation {
 							ds = append(ds, fi.EventString(u.ev))
 						}
 					}
-					o.Detail = fmt.Sprintf("Point input %s is read without a dominating checkInitialized (%d unguarded reads; first: %s)", name, len(ug), strings.Join(ds, "; "))
+					o.Detail = fmt.Sprintf("Point input %s is read although it may be a zero-value Point: no initialisation guard excludes it before the read (%d unguarded reads; first: %s)", name, len(ug), strings.Join(ds, "; "))
 				}
 				out = append(out, o)
 			} else {
 				o := report.Obligation{Rule: "G-PURE", Key: "G-PURE/" + load.ShortName(f) + "/" + name, Config: e.cfg(), Pos: e.P.Rel(f.Pos()), OK: true,
 					Detail: "pure receiver: its incoming value is never read and no guard is applied to it (a zero-value Point is acceptable)"}
-				if gs := e.guardsOf(f, r); len(gs) > 0 {
+				if at, d := e.distinguishes(f, r); d {
 					o.OK = false
-					o.Pos = e.P.Rel(gs[0].Pos())
-					o.Detail = "checkInitialized is applied to " + name + " although its incoming value is never read: a zero-value receiver would panic"
+					if at != nil {
+						o.Pos = e.P.Rel(at.Pos())
+					}
+					o.Detail = "the initialisation guard is applied to " + name + " although its incoming value is never read: a zero-value receiver would panic"
 				}
 				out = append(out, o)
 			}
@@ -400,206 +331,98 @@ func (e *Engine) GInit() []report.Obligation {
 
 // ---- G-GUARD -------------------------------------------------------------------
 
-func isZeroAggregate(v ssa.Value) bool {
-	c, ok := v.(*ssa.Const)
-	return ok && c.Value == nil
-}
-
-// GGuard checks the body of checkInitialized.
+// GGuard checks the guard itself, wherever it is written: (a) every loop over a
+// []*Point parameter whose body takes decisions on the element's x/y atoms is
+// exactly the guard (panics iff both are zero, otherwise goes on to the next
+// element, no other exit, indices 0,1,2,…,len-1); (b) every panic (or call
+// that cannot return) whose reachability depends on the atoms of a *Point
+// parameter is reachable exactly when both are zero — never for x alone, y
+// alone, or for an initialised point.
 func (e *Engine) GGuard() []report.Obligation {
-	o := report.Obligation{Rule: "G-GUARD", Key: "G-GUARD/checkInitialized", Config: e.cfg(), OK: false}
-	f := e.Guard
-	if f == nil {
-		o.Detail = "ANCHOR checkInitialized not found"
-		return []report.Obligation{o}
-	}
-	o.Pos = e.P.Rel(f.Pos())
-	fail := func(format string, a ...interface{}) []report.Obligation {
-		o.Detail = fmt.Sprintf(format, a...)
-		return []report.Obligation{o}
-	}
-	if len(f.Params) != 1 {
-		return fail("expected one variadic parameter")
-	}
-	sl, ok := f.Params[0].Type().Underlying().(*types.Slice)
-	if !ok || !isPointPtr(sl.Elem()) {
-		return fail("parameter is not ...*Point")
-	}
-	cdg := e.CDG(f)
-	var panics []*ssa.Panic
-	var rets []*ssa.Return
-	for _, b := range f.Blocks {
-		for _, in := range b.Instrs {
-			switch x := in.(type) {
-			case *ssa.Panic:
-				panics = append(panics, x)
-			case *ssa.Return:
-				rets = append(rets, x)
-			}
-		}
-	}
-	if len(panics) != 1 || len(rets) != 1 {
-		return fail("expected exactly one panic and one return, found %d and %d (an extra exit skips elements)", len(panics), len(rets))
-	}
-	isOrdering := func(i *ssa.If) bool {
-		bo, ok := i.Cond.(*ssa.BinOp)
-		return ok && (bo.Op == token.LSS || bo.Op == token.GTR || bo.Op == token.LEQ || bo.Op == token.GEQ)
-	}
-	// conditions deciding the panic within one iteration: do not expand through the loop condition
-	deps := cdg.ClosureUntil(panics[0].Block(), isOrdering)
-	var loopIf *ssa.If
-	fields := map[string]bool{}
-	var elemPtr ssa.Value
-	for _, d := range deps {
-		bo, ok := d.If.Cond.(*ssa.BinOp)
-		if !ok {
-			return fail("panic depends on a condition that is not a comparison: %s", d.If.Cond)
-		}
-		switch bo.Op {
-		case token.LSS, token.GTR, token.LEQ, token.GEQ:
-			if loopIf != nil {
-				return fail("panic depends on more than one ordering comparison")
-			}
-			loopIf = d.If
-			if !d.True {
-				return fail("panic is on the out-of-range side of the loop condition")
-			}
-		case token.EQL, token.NEQ:
-			wantTrue := bo.Op == token.EQL
-			if d.True != wantTrue {
-				return fail("panic is reached when a coordinate is NOT the zero value (%s)", e.P.Rel(bo.Pos()))
-			}
-			x, y := bo.X, bo.Y
-			if isZeroAggregate(x) {
-				x, y = y, x
-			}
-			if !isZeroAggregate(y) {
-				return fail("comparison %s is not against the zero field.Element", e.P.Rel(bo.Pos()))
-			}
-			ld, ok := x.(*ssa.UnOp)
-			if !ok || ld.Op != token.MUL {
-				return fail("comparison operand is not a load")
-			}
-			fa, ok := ld.X.(*ssa.FieldAddr)
-			if !ok {
-				return fail("comparison operand is not a field of a Point")
-			}
-			fields[load.FieldName(fa.X.Type().Underlying().(*types.Pointer).Elem(), fa.Field)] = true
-			if elemPtr == nil {
-				elemPtr = fa.X
-			} else if elemPtr != fa.X {
-				return fail("the two comparisons inspect different points")
-			}
-		default:
-			return fail("panic depends on an unexpected condition %s", bo)
-		}
-	}
-	if len(fields) != 2 || !fields["x"] || !fields["y"] {
-		var fs []string
-		for k := range fields {
-			fs = append(fs, k)
-		}
-		sort.Strings(fs)
-		return fail("panic must depend on exactly x == zero and y == zero of the element; it depends on {%s}", strings.Join(fs, ","))
-	}
-	if loopIf == nil {
-		return fail("no loop over the elements")
-	}
-	// element pointer = load of &points[idx]
-	ld, ok := elemPtr.(*ssa.UnOp)
-	if !ok || ld.Op != token.MUL {
-		return fail("inspected point is not an element of the parameter slice")
-	}
-	ia, ok := ld.X.(*ssa.IndexAddr)
-	if !ok || ia.X != ssa.Value(f.Params[0]) {
-		return fail("inspected point is not an element of the parameter slice")
-	}
-	idx := ia.Index
-	// loop condition: idx < len(points), with idx an induction variable 0,1,2,…
-	lc := loopIf.Cond.(*ssa.BinOp)
-	cx, cy := lc.X, lc.Y
-	if lc.Op == token.GTR {
-		cx, cy = cy, cx
-	} else if lc.Op != token.LSS {
-		return fail("loop condition is not idx < len(points)")
-	}
-	lenCall, ok := cy.(*ssa.Call)
-	if !ok {
-		return fail("loop bound is not len(points)")
-	}
-	if b, ok := lenCall.Common().Value.(*ssa.Builtin); !ok || b.Name() != "len" || lenCall.Common().Args[0] != ssa.Value(f.Params[0]) {
-		return fail("loop bound is not len(points)")
-	}
-	if cx != idx {
-		return fail("the index compared with len(points) is not the index used to fetch the element")
-	}
-	// idx is phi(0, idx+1) or (phi(-1, idx))+1
-	start, step, ok2 := induction(idx)
-	if !ok2 {
-		return fail("element index is not an induction variable")
-	}
-	if start != 0 || step != 1 {
-		return fail("loop visits indices starting at %d in steps of %d, not 0,1,2,…", start, step)
-	}
-	// the return depends only on the loop condition (false side)
-	for _, d := range cdg.ClosureUntil(rets[0].Block(), isOrdering) {
-		if d.If != loopIf {
-			return fail("the normal return depends on a condition other than the end of the loop (%s): some elements can be skipped", e.P.Rel(d.If.Cond.Pos()))
-		}
-	}
-	// every path from a non-panicking element check goes back to the loop header (no early exit)
-	o.OK = true
-	o.Detail = "loop visits indices 0..len-1 in steps of 1; panic is control-dependent exactly on x == zero ∧ y == zero of that element; the only other exit is the end of the loop"
-	return []report.Obligation{o}
-}
-
-// phiParts splits a phi into its single constant edge and the single value
-// shared by all its other edges.
-func phiParts(ph *ssa.Phi) (c *ssa.Const, other ssa.Value, ok bool) {
-	for _, e := range ph.Edges {
-		if k, isC := e.(*ssa.Const); isC && k.Value != nil {
-			if c != nil && !constant.Compare(c.Value, token.EQL, k.Value) {
-				return nil, nil, false
-			}
-			c = k
+	var out []report.Obligation
+	for _, f := range e.P.Funcs {
+		if f.Pkg != e.P.Root || len(f.Blocks) == 0 {
 			continue
 		}
-		if other != nil && other != e {
-			return nil, nil, false
+		name := load.ShortName(f)
+		for _, b := range f.Blocks {
+			ifi, ok := b.Instrs[len(b.Instrs)-1].(*ssa.If)
+			if !ok {
+				continue
+			}
+			li := e.G.GuardLoop(f, ifi)
+			if !li.IsLoop || !li.Candidate {
+				continue
+			}
+			o := report.Obligation{Rule: "G-GUARD", Key: "G-GUARD/" + name, Config: e.cfg(), Pos: e.P.Rel(f.Pos()), OK: li.OK}
+			if li.OK {
+				o.Detail = "loop visits indices 0..len-1 in steps of 1; each element panics exactly when x == zero ∧ y == zero, otherwise the loop goes on; the only other exit is the end of the loop"
+			} else {
+				o.Pos = e.P.Rel(ifi.Cond.Pos())
+				o.Detail = "loop over the points takes decisions on an element's x/y but is not the initialisation guard: " + li.Why
+			}
+			out = append(out, o)
 		}
-		other = e
-	}
-	return c, other, c != nil && other != nil
-}
-
-// induction recognises v as an induction variable: returns (first value, step).
-func induction(v ssa.Value) (int64, int64, bool) {
-	// form A: v = phi(c, v + s)
-	if ph, ok := v.(*ssa.Phi); ok {
-		if c, other, ok := phiParts(ph); ok {
-			if inc, ok := other.(*ssa.BinOp); ok && inc.Op == token.ADD && inc.X == ssa.Value(ph) {
-				if s, ok := inc.Y.(*ssa.Const); ok && s.Value != nil {
-					c0, _ := constant.Int64Val(c.Value)
-					s0, _ := constant.Int64Val(s.Value)
-					return c0, s0, true
+		for _, r := range pointRoots(f) {
+			if r.Kind != effects.KParam {
+				continue
+			}
+			reach := map[ssa.Instruction]map[load.GAssign]bool{}
+			var order []ssa.Instruction
+			for _, a := range load.GAll {
+				for _, p := range e.G.Run(f, subjOf(r), a).Panics {
+					if reach[p] == nil {
+						reach[p] = map[load.GAssign]bool{}
+						order = append(order, p)
+					}
+					reach[p][a] = true
 				}
 			}
-		}
-	}
-	// form B: v = phi(c, v) + s   (range loops)
-	if inc, ok := v.(*ssa.BinOp); ok && inc.Op == token.ADD {
-		ph, ok := inc.X.(*ssa.Phi)
-		s, ok2 := inc.Y.(*ssa.Const)
-		if ok && ok2 && s.Value != nil {
-			if c, other, ok := phiParts(ph); ok && other == ssa.Value(inc) {
-				c0, _ := constant.Int64Val(c.Value)
-				s0, _ := constant.Int64Val(s.Value)
-				return c0 + s0, s0, true
+			dep := false
+			bad := ""
+			var badAt ssa.Instruction
+			for _, p := range order {
+				s := reach[p]
+				rest := 0
+				for _, a := range load.GAll[1:] {
+					if s[a] {
+						rest++
+					}
+				}
+				if len(s) != 4 {
+					dep = true
+				}
+				if rest != 0 && rest != 3 {
+					var on []string
+					for _, a := range load.GAll {
+						if s[a] {
+							on = append(on, fmt.Sprintf("(x zero=%v, y zero=%v)", a.X0, a.Y0))
+						}
+					}
+					bad = "a panic is reachable for " + strings.Join(on, ", ") + " only: it separates initialised points (a Point is uninitialised only when x and y are BOTH zero)"
+					badAt = p
+				}
 			}
+			if !dep {
+				continue
+			}
+			o := report.Obligation{Rule: "G-GUARD", Key: "G-GUARD/" + name + "/" + rootName(f, r), Config: e.cfg(), Pos: e.P.Rel(f.Pos()), OK: bad == "",
+				Detail: "every panic that depends on this Point's x/y is reachable exactly when both are the zero Element"}
+			if bad != "" {
+				o.Detail = bad
+				o.Pos = e.P.Rel(badAt.Pos())
+			}
+			out = append(out, o)
 		}
 	}
-	return 0, 0, false
+	if len(out) == 0 {
+		out = append(out, report.Obligation{Rule: "G-GUARD", Key: "G-GUARD/checkInitialized", Config: e.cfg(), OK: false,
+			Detail: "no initialisation guard found: no function of the package panics exactly when a Point's x and y are both the zero Element"})
+	}
+	return out
 }
+
+func induction(v ssa.Value) (int64, int64, bool) { return load.Induction(v) }
 
 // ---- G-LEN -----------------------------------------------------------------------
 
